@@ -654,3 +654,21 @@ Proof.
       rewrite <- (rev_involutive (d :: ds)) at 1. apply slice_256; auto. apply Forall_rev'. exact Hb.
   - apply U_from_radix_le_spec; auto. lia.
 Qed.
+
+Theorem I_parse_bytes_panic
+  (Hadd : U_overflowing_add_spec) (Hbit : bit_spec) (Htz : trailing_zeros_spec)
+  (Hneg : I_wrapping_neg_spec) (Hisneg : is_negative_spec) dbg w n s r :
+  0 < w -> w mod 8 = 0 -> (0 < n)%nat -> I_parse_bytes dbg w n s r = PPanic -> ~ (2 <= r <= 36).
+Proof.
+  intros Hw H8 Hn. unfold I_parse_bytes. destruct (utf8_valid s); [|discriminate].
+  destruct (I_from_str_radix_panic Hadd Hbit Htz Hneg Hisneg dbg w n s r Hw H8 Hn) as ((Hp & _) & _).
+  destruct (I_from_str_radix dbg w n s r); cbn [pok]; try discriminate. intros _. apply Hp. reflexivity.
+Qed.
+
+(* parse_str_radix unwraps from_str_radix and panics on Err *)
+Theorem U_parse_str_radix_def dbg w n s r :
+  U_parse_str_radix dbg w n s r = match U_from_str_radix dbg w n s r with PErr _ => PPanic | x => x end.
+Proof. reflexivity. Qed.
+Theorem I_parse_str_radix_def dbg w n s r :
+  I_parse_str_radix dbg w n s r = match I_from_str_radix dbg w n s r with PErr _ => PPanic | x => x end.
+Proof. reflexivity. Qed.
